@@ -50,6 +50,7 @@ pub struct WorkerReport {
 static CUR_RUN: AtomicU64 = AtomicU64::new(u64::MAX);
 static CUR_START_MS: AtomicU64 = AtomicU64::new(0);
 static CUR_START_CPU_MS: AtomicU64 = AtomicU64::new(0);
+static SLOW_SCENARIO: std::sync::atomic::AtomicBool = std::sync::atomic::AtomicBool::new(false);
 
 fn process_cpu_ms() -> u64 {
     let mut ts = libc::timespec { tv_sec: 0, tv_nsec: 0 };
@@ -97,6 +98,7 @@ pub struct WorkerArgs {
     pub only_scenario: Option<String>,
     pub only_run: Option<u64>,
     pub only_first: Option<u64>,
+    pub skip_slow: bool,
     /// continue at (scenario, run) — used after a worker died on an earlier run
     pub resume: Option<(String, u64)>,
     pub trace_first: u64,
@@ -162,6 +164,7 @@ pub fn worker_main(a: WorkerArgs) -> i32 {
         let st = CUR_START_MS.load(Ordering::SeqCst);
         let cpu0 = CUR_START_CPU_MS.load(Ordering::SeqCst);
         // CPU budget (load-independent) or a generous wall limit (catches blocked, idle hangs)
+        let wd = if SLOW_SCENARIO.load(Ordering::SeqCst) { wd * 60 } else { wd };
         if process_cpu_ms().saturating_sub(cpu0) > wd * 1000 || mono_ms().saturating_sub(st) > wd * 12_000 {
             eprintln!("WATCHDOG run={}", r);
             if let Ok(mut g) = acc_w.lock() {
@@ -181,6 +184,13 @@ pub fn worker_main(a: WorkerArgs) -> i32 {
                 continue;
             }
         }
+        // scenarios named "slow-..." hold gigabytes: only worker 0 runs them (all indices), one at a time
+        let slow = scenario.starts_with("slow-");
+        if slow && (a.start != 0 || a.skip_slow) {
+            global_idx += count;
+            continue;
+        }
+        let stride = if slow { 1 } else { a.stride };
         let mut i = a.start;
         if resuming {
             let (rs, rr) = a.resume.as_ref().unwrap();
@@ -195,13 +205,14 @@ pub fn worker_main(a: WorkerArgs) -> i32 {
         while i < limit {
             if let Some(r) = a.only_run {
                 if i != r {
-                    i += a.stride;
+                    i += stride;
                     continue;
                 }
             }
             let gi = global_idx + i;
             CUR_START_MS.store(mono_ms(), Ordering::SeqCst);
             CUR_START_CPU_MS.store(process_cpu_ms(), Ordering::SeqCst);
+            SLOW_SCENARIO.store(slow, Ordering::SeqCst);
             CUR_RUN.store(gi, Ordering::SeqCst);
             if let Some(f) = &hb {
                 let line = format!("{:<24} {:>12}\n", scenario, i);
@@ -214,7 +225,7 @@ pub fn worker_main(a: WorkerArgs) -> i32 {
             let mut vs = (def.eval)(scenario, &case, &mut st, a.tier);
             let cpu = thread_cpu_ms().saturating_sub(cpu0);
             CUR_RUN.store(u64::MAX, Ordering::SeqCst);
-            if cpu > SLOW_RUN_CPU_MS && !def.slow_ok {
+            if cpu > SLOW_RUN_CPU_MS && !def.slow_ok && !slow {
                 slow_runs += 1;
                 vs.push(Violation {
                     property: def.id,
@@ -281,7 +292,7 @@ pub fn worker_main(a: WorkerArgs) -> i32 {
                 }
             }
             }
-            i += a.stride;
+            i += stride;
             if slow_runs >= 3 {
                 // no point in grinding through a batch in which runs take seconds
                 eprintln!("ABORT: {} slow runs", slow_runs);
@@ -615,7 +626,10 @@ pub fn driver_main(id: &str, tier: Tier) -> i32 {
     }
 
     // 2. exploration
-    let extra: Vec<String> = vec![format!("--trace-first={}", 64)];
+    let mut extra: Vec<String> = vec![format!("--trace-first={}", 64)];
+    if id == "C16" && tier == Tier::Thorough {
+        extra.push("--rlimit-gb=40".to_string());
+    }
     let merged = match run_batch(def, tier, seed, workers, &extra) {
         Ok(m) => m,
         Err(e) => {
@@ -624,7 +638,7 @@ pub fn driver_main(id: &str, tier: Tier) -> i32 {
         }
     };
     // determinism sample: the first 64 runs of every scenario again, in one fresh process
-    let det = match run_batch(def, tier, seed, 1, &[format!("--trace-first={}", 64), "--only-first=64".to_string()]) {
+    let det = match run_batch(def, tier, seed, 1, &[format!("--trace-first={}", 64), "--only-first=64".to_string(), "--skip-slow=1".to_string()]) {
         Ok(m) => m,
         Err(e) => {
             eprintln!("HARNESS ERROR (determinism pass): {}", e);
@@ -863,7 +877,7 @@ pub fn determinism_main(id: &str, n: u64) -> i32 {
     for seed in seeds {
         let mut maps: Vec<BTreeMap<(String, u64), u64>> = Vec::new();
         for w in [1u64, 4, 16, 16] {
-            let m = match run_batch(def, Tier::Quick, seed, w, &[format!("--trace-first={}", n), format!("--only-first={}", n)]) {
+            let m = match run_batch(def, Tier::Quick, seed, w, &[format!("--trace-first={}", n), format!("--only-first={}", n), "--skip-slow=1".to_string()]) {
                 Ok(m) => m,
                 Err(e) => {
                     eprintln!("HARNESS ERROR: {}", e);
